@@ -437,6 +437,31 @@ func genTokensCfg(r *rng, idx int, tweak func(*srvCfg)) srvCase {
 			c.evs = append(c.evs, qpkt(randAddr(r, famOf(r)), "get_peers", "g2", &krpc.MsgArgs{ID: id, InfoHash: ih, Want: wantChoices(r)}))
 		}
 	}
+	// phase C: long uptimes. A token issued shortly before the node has been up for a whole number of days (or any
+	// other long time) and used shortly afterwards is as good as any other fresh token; 16 minutes later it is not.
+	if r.intn(2) == 0 {
+		var up time.Duration
+		for _, e := range c.evs {
+			if e.kind == "adv" {
+				up += e.adv
+			}
+		}
+		days := time.Duration(1+r.intn(3)) * 24 * time.Hour
+		if r.intn(4) == 0 {
+			days = time.Duration(1+r.intn(400)) * time.Hour
+		}
+		if days > up+2*time.Minute {
+			c.evs = append(c.evs, sev{kind: "adv", adv: days - up - time.Duration(30+r.intn(90))*time.Second})
+			issue()
+			c.evs = append(c.evs, sev{kind: "adv", adv: time.Duration(2+r.intn(3)) * time.Minute})
+			write(a4, 0)
+			write(other, 8)
+			c.evs = append(c.evs, sev{kind: "adv", adv: 5 * time.Minute})
+			write(variants[r.intn(3)], 0)
+			c.evs = append(c.evs, sev{kind: "adv", adv: 11 * time.Minute})
+			write(a4, 0)
+		}
+	}
 	return c
 }
 
@@ -941,6 +966,62 @@ func genPeersHook(r *rng, idx int) srvCase {
 	return c
 }
 
+// ---------------------------------------------------------------- scenario: special networks under the security extension
+// With BEP 42 enforced, which addresses are exempt is part of who gets into the table: 10/8, 172.16/12, 192.168/16,
+// 169.254/16, 127/8, fe80::/10 and ::1 are, their neighbours and every other "private looking" range (fc00::/7 unique
+// local, fec0::/10 site local, 100.64/10, 192.0.0/24, 198.18/15, 0/8 ...) are not. Contacts from both sides of every
+// boundary, with ids that are / are not secure for their address, as queriers, as responders and through AddNode.
+func genSecNets(r *rng, idx int) srvCase {
+	c := srvCase{idx: idx, cfg: baseCfg(r, "secnets")}
+	c.cfg.nosec = false
+	root := c.cfg.root
+	v4 := []string{"10.0.0.1", "10.255.255.254", "9.255.255.255", "11.0.0.1", "172.16.0.1", "172.31.255.254", "172.15.255.255", "172.32.0.1",
+		"192.168.0.1", "192.168.255.254", "192.167.255.255", "192.169.0.1", "169.254.0.1", "169.254.255.254", "169.253.255.255", "169.255.0.1",
+		"127.0.0.1", "127.255.255.254", "126.255.255.255", "128.0.0.1", "100.64.0.1", "192.0.0.8", "198.18.0.1", "0.0.0.1", "224.0.0.1", "203.0.113.7"}
+	v6 := []string{"fe80::1", "febf:ffff::1", "fec0::1", "fe7f:ffff::1", "fc00::1", "fd00:1234::1", "fdff:ffff::2", "fbff::1", "fe00::1", "::1", "::2",
+		"2001:db8::1", "64:ff9b::a00:1", "ff02::1", "2002:a00:1::1"}
+	var peers []speer
+	qid := 0
+	for i := 0; i < 14; i++ {
+		var ip net.IP
+		switch r.intn(5) {
+		case 0, 1:
+			ip = net.ParseIP(v4[r.intn(len(v4))]).To4()
+		case 2:
+			ip = mapped(net.ParseIP(v4[r.intn(len(v4))]).To4())
+		default:
+			ip = net.ParseIP(v6[r.intn(len(v6))]).To16()
+		}
+		p := speer{addr: udp(ip, 1+r.intn(65535)), id: idInBucket(r, root, r.intn(6))}
+		if r.intn(3) == 0 {
+			kid := krpc.ID(p.id)
+			dht.SecureNodeId(&kid, p.addr.IP)
+			p.id = kid
+		}
+		peers = append(peers, p)
+	}
+	client := speer{addr: randAddr(r, 0), id: idInBucket(r, root, r.intn(160))}
+	for _, p := range peers {
+		switch r.intn(4) {
+		case 0:
+			c.evs = append(c.evs, qpkt(p.addr, "ping", string(r.bytes(2)), argsID(p.id)))
+		case 1:
+			c.evs = append(c.evs, makeGood(&qid, p, nil)...)
+		case 2:
+			c.evs = append(c.evs, sev{kind: "addnode", src: p.addr, id: p.id})
+		default:
+			var tg [20]byte
+			copy(tg[:], r.bytes(20))
+			c.evs = append(c.evs, qpkt(p.addr, "find_node", string(r.bytes(2)), &krpc.MsgArgs{ID: p.id, Target: tg, Want: wantChoices(r)}))
+		}
+		if r.intn(4) == 0 {
+			c.evs = append(c.evs, qpkt(client.addr, "find_node", string(r.bytes(2)), &krpc.MsgArgs{ID: client.id, Target: root, Want: []krpc.Want{"n4", "n6"}}))
+		}
+	}
+	c.evs = append(c.evs, qpkt(client.addr, "find_node", "fz", &krpc.MsgArgs{ID: client.id, Target: root, Want: []krpc.Want{"n4", "n6"}}))
+	return c
+}
+
 func genServerCases(seed uint64, tier string) []srvCase {
 	r := &rng{s: seed ^ 0x5e7e7}
 	mult := 1
@@ -968,5 +1049,6 @@ func genServerCases(seed uint64, tier string) []srvCase {
 	add(genTokensLattice, 10)
 	add(genMethodsBare, 2)
 	add(genPeersHook, 4)
+	add(genSecNets, 4)
 	return cases
 }
